@@ -861,7 +861,7 @@ theorem emLit_spans (cfg : Cfg) (hcs : cfg.caseSensitive = true) (hrp : cfg.real
     front of the last one is tested, none may be a symbolic link -/
 theorem fsGroups_dirs (fs : FS) (ds : List Name) (hds : ∀ d ∈ ds, CompOK d) (s : Name) (hs : CompOK s)
     (tl : List Char) :
-    fsGroups fs (joinSl (ds ++ [s]) ++ tl) [some (0, (joinSl ds).length)] none = true ↔
+    fsGroups fs (joinSl (ds ++ [s]) ++ tl) [some (0, (joinSl ds).length)] = true ↔
       ∀ i, i < ds.length → fs.islink (joinSl (ds.take (i + 1))) = false := by
   by_cases hdse : ds = []
   · subst hdse
@@ -877,10 +877,10 @@ theorem fsGroups_dirs (fs : FS) (ds : List Name) (hds : ∀ d ∈ ds, CompOK d) 
       cases s with
       | nil => exact absurd rfl h1
       | cons _ _ => simp
-    have hatEnd : (((joinSl ds).length : Int) == ((joinSl (ds ++ [s]) ++ tl).length : Int) - 1) = false := by
+    have hatEnd : decide (((joinSl ds).length : Int) ≥ ((joinSl (ds ++ [s]) ++ tl).length : Int) - 1) = false := by
       rw [hname]
       simp only [List.length_append, List.length_cons, List.length_nil]
-      simp only [beq_eq_false_iff_ne, ne_eq]
+      simp only [decide_eq_false_iff_not]
       omega
     have hstrip : stripSlash (joinSl ds) = joinSl ds :=
       stripSlash_id _ (joinSl_head ds hds) (joinSl_getLast ds hdse hds)
@@ -911,7 +911,7 @@ theorem fsMatch_emLit (fs : FS) (cfg : Cfg) (hcs : cfg.caseSensitive = true) (hr
   constructor
   · rintro ⟨spans, hsp, hg⟩
     obtain ⟨ds, h1, h2, rfl⟩ := emLit_spans cfg hcs hrp s hs hok comps hne hc tl htl hnl spans hsp
-    have hg' : fsGroups fs (joinSl comps ++ tl) [some (0, (joinSl ds).length)] none = true := by
+    have hg' : fsGroups fs (joinSl comps ++ tl) [some (0, (joinSl ds).length)] = true := by
       rcases hg with hg | hg
       · cases hg
       · exact hg
